@@ -23,10 +23,15 @@ impl DhtKey {
 }
 pub struct DHTNode {
     pub peer_id: String,
+    pub address: String,
     pub distance: Option<Vec<u8>>,
+    pub reliability: f64,
     pub cached_dht_key: Option<DhtKey>,
 }
 pub struct DhtNetworkManager {}
+/// verified identity on f64 (works around a Verus encoding quirk: an f64 read from a nested field of a partially
+/// moved value inside a struct literal loses the facts about the enclosing statement)
+pub fn verif_f64x(x: f64) -> (r: f64) ensures r == x { x }
 pub uninterp spec fn parsed_key(peer_id: Seq<char>) -> Option<DhtKey>;
 
 pub open spec fn lex_lt(x: Seq<u8>, y: Seq<u8>) -> bool {
@@ -147,5 +152,86 @@ proof fn lemma_rank_cmp_is_a_total_preorder(a: &DHTNode, b: &DHTNode, c: &DHTNod
         if lex_lt(x, y) && lex_lt(y, z) { lemma_lex_transitive(x, y, z); }
         if lex_lt(z, x) && lex_lt(x, y) { lemma_lex_transitive(z, x, y); }
         if lex_lt(y, z) && lex_lt(z, x) { lemma_lex_transitive(y, z, x); }
+    }
+}
+
+// ---------------------------------------------------------------------------------------------
+// find_closest_nodes_local (await-erased): the answer over routing table + connected peers
+// ---------------------------------------------------------------------------------------------
+pub mod verif_mgr_local {
+    use vstd::prelude::*;
+    use super::{DhtKey, DHTNode, Key};
+    pub struct VerifError {}
+    /// Multiaddr: opaque; `to_string()` gives some text
+    #[verifier::external_body] pub struct Multiaddr { _p: u8 }
+    impl Multiaddr {
+        #[verifier::external_body]
+        pub fn to_string(&self) -> String { unimplemented!() }
+    }
+    pub struct DhtPeerInfo {
+        pub dht_key: Key,
+        pub addresses: Vec<Multiaddr>,
+        pub is_connected: bool,
+        pub reliability_score: f64,
+    }
+    /// dht::core_engine::{NodeId, NodeInfo, NodeCapacity}
+    pub struct NodeId(pub DhtKey);
+    impl NodeId {
+        #[verifier::external_body]
+        pub fn as_bytes(&self) -> (r: &[u8; 32]) ensures *r == self.0.0 { unimplemented!() }
+        /// Display: lower-case hex of the 32 bytes
+        #[verifier::external_body]
+        pub fn to_string(&self) -> String { unimplemented!() }
+    }
+    pub struct NodeCapacity { pub reliability_score: f64 }
+    pub struct NodeInfo { pub id: NodeId, pub address: String, pub capacity: NodeCapacity }
+    /// the engine behind `self.dht` (read guard): find_nodes returns some table entries or an error
+    #[verifier::external_body] pub struct DhtCoreEngine { _p: u8 }
+    impl DhtCoreEngine {
+        #[verifier::external_body]
+        pub fn find_nodes(&self, key: &DhtKey, count: usize) -> (r: core::result::Result<Vec<NodeInfo>, VerifError>) { unimplemented!() }
+    }
+    /// `[u8; 32]::to_vec()`
+    #[verifier::external_body]
+    pub fn verif_key_to_vec(k: &Key) -> (r: Vec<u8>) ensures r@ == k@ { unimplemented!() }
+    /// `v.first()`
+    #[verifier::external_body]
+    pub fn verif_first_addr<'a>(v: &'a Vec<Multiaddr>) -> (r: Option<&'a Multiaddr>) ensures r.is_some() == (v@.len() > 0) { unimplemented!() }
+    #[verifier::external_body]
+    pub broadcast proof fn axiom_key_model()
+        ensures #[trigger] vstd::std_specs::hash::obeys_key_model::<Key>(),
+    {}
+    #[verifier::external_body]
+    pub broadcast proof fn axiom_string_key_model()
+        ensures #[trigger] vstd::std_specs::hash::obeys_key_model::<String>(),
+    {}
+}
+pub use verif_mgr_local::*;
+broadcast use {verif_mgr_local::axiom_key_model, verif_mgr_local::axiom_string_key_model};
+use std::collections::{HashMap, HashSet};
+
+impl DhtNetworkManager {
+    #[verifier::external_body]
+    fn is_local_peer_id(&self, peer_id: &str) -> bool { unimplemented!() }
+}
+/// every listed node carries a DHT key, that key has been recorded, and no two listed nodes share one
+pub open spec fn listed_once(v: Seq<DHTNode>, seen: Set<Key>) -> bool {
+    &&& forall|i: int| 0 <= i < v.len() ==> (#[trigger] v[i]).cached_dht_key.is_some() && seen.contains(v[i].cached_dht_key.unwrap().0)
+    &&& forall|i: int, j: int| 0 <= i < j < v.len() ==> (#[trigger] v[i]).cached_dht_key.unwrap().0 != (#[trigger] v[j]).cached_dht_key.unwrap().0
+}
+pub open spec fn keys_distinct(v: Seq<DHTNode>) -> bool {
+    forall|i: int, j: int| 0 <= i < j < v.len() ==> (#[trigger] v[i]).cached_dht_key.is_some() && (#[trigger] v[j]).cached_dht_key.is_some()
+        && v[i].cached_dht_key.unwrap().0 != v[j].cached_dht_key.unwrap().0
+}
+pub proof fn lemma_listed_push(v: Seq<DHTNode>, seen: Set<Key>, n: DHTNode, k: Key)
+    requires listed_once(v, seen), !seen.contains(k), n.cached_dht_key.is_some(), n.cached_dht_key.unwrap().0 == k,
+    ensures listed_once(v.push(n), seen.insert(k)),
+{
+    let w = v.push(n);
+    assert forall|i: int, j: int| 0 <= i < j < w.len() implies (#[trigger] w[i]).cached_dht_key.unwrap().0 != (#[trigger] w[j]).cached_dht_key.unwrap().0 by {
+        if j == v.len() { assert(w[i] == v[i]); assert(seen.contains(v[i].cached_dht_key.unwrap().0)); } else { assert(w[i] == v[i] && w[j] == v[j]); }
+    }
+    assert forall|i: int| 0 <= i < w.len() implies (#[trigger] w[i]).cached_dht_key.is_some() && seen.insert(k).contains(w[i].cached_dht_key.unwrap().0) by {
+        if i < v.len() { assert(w[i] == v[i]); }
     }
 }
